@@ -226,6 +226,13 @@ impl RecvWindow {
         }
 
         if let Some(msg_len) = hdr.get_msg_len() {
+            if self.rem_msg_len > 0 {
+                // ... or else the length prefix and the payload received so far would stay
+                // in the ring-buffer and get spliced with the SDUs which follow
+                warn!("RX data integrity failure: A new SDU begins but the previous one is not complete");
+                Err(ErrorCode::InvalidData)?;
+            }
+
             // The segment carries the BTP header as well, so the SDU fits only if both do
             if msg_len as usize + hdr.len() <= mtu as usize && !hdr.is_final() {
                 warn!("RX data integrity failure: An SDU that fits in a single BTP segment must be final");
